@@ -3,7 +3,7 @@ import ast
 
 from sa.variance import path_literals
 from .common import (Ctx, call_name, calls_in, dotted, is_name, kw, local_assignments, node_calls,
-                     nodes_calling, norm, own_calls, params)
+                     nodes_calling, norm, own_calls, params, iterates_in_order)
 
 P = 'C06'
 FN = 'runner.resume_tests'
@@ -173,7 +173,7 @@ def r3_in_order_flush(ctx, rep, R='C06.R3'):
     okc = okc and len(muts) == 1 and muts[0].func.attr == 'append'
     if okc:
         lp = [p for p in _parents(muts[0], fi.node) if isinstance(p, ast.For)]
-        okc = bool(lp) and is_name(lp[0].iter, 'layers')
+        okc = bool(lp) and iterates_in_order(lp[0].iter, 'layers')
     rep.check(okc, R, 'cursor = next(iter(results)); results appended in the order of the layers',
               'the flush cursor does not walk the results in layer order', key='flush:cursor',
               func=fi.qualname, where=ctx.where(fi, w))
